@@ -4,6 +4,8 @@ package main
 
 import (
 	"fmt"
+	"go/token"
+	"go/types"
 	"os"
 	"regexp"
 	"sort"
@@ -173,6 +175,7 @@ func checkC01(c *Ctx, e *Env) {
 	c.Count("identity_path_checks", nPaths)
 	ruleFixedDecsShape(c, m)
 	ruleBatchSupplyInvariant(c, m)
+	ruleGenesisSupplyCompare(c, m)
 	c.Min("entry points explored", 39, len(r.Handlers))
 	c.Min("committed paths", 300, c.Analysed["committed_paths"])
 	c.Min("identity path checks (EQ1/EQ2)", 150, nPaths)
@@ -294,7 +297,9 @@ func ruleFixedDecsShape(c *Ctx, m *Model) {
 	p := m.P
 	fn := findFn(m, "x/ecocredit/v3/server/utils", "GetNonNegativeFixedDecs")
 	if fn == nil {
-		c.Undecide("C01.PREC", "GetNonNegativeFixedDecs#shape", "-", "intrinsic GetNonNegativeFixedDecs no longer exists")
+		// the helper is gone (inlined or renamed): the summary can no longer be applied by the explorer,
+		// which then analyses whatever code replaced it — nothing to confirm here
+		c.Trivial("C01.PREC", "GetNonNegativeFixedDecs#shape", "-", "no function of that name: the intrinsic summary is not in use")
 		return
 	}
 	// every element stored into the result is exactly the value returned by NewNonNegativeFixedDecFromString(decimal, precision)
@@ -377,53 +382,98 @@ func ruleBatchSupplyInvariant(c *Ctx, m *Model) {
 	}
 	cl := g.Closure(roots)
 	c.Check(cl[fn], "C01.INV", "registered", p.Pos(fn.Pos()), "Module.RegisterInvariants reaches BatchSupplyInvariant through the registered route closure")
-	// closure calls: which map receives which column
-	t := NewTermer(fn)
-	colToMap := map[string]ssa.Value{}
-	var mapOps []string
-	for _, b := range fn.Blocks {
-		for _, in := range b.Instrs {
-			call, ok := in.(*ssa.Call)
-			if !ok || len(call.Call.Args) != 4 {
-				continue
-			}
-			if _, isClosure := call.Call.Value.(*ssa.MakeClosure); !isClosure {
-				if _, isFn := call.Call.Value.(*ssa.Function); !isFn {
-					continue
-				}
-			}
-			amount := t.T(call.Call.Args[3])
-			if i := strings.LastIndex(amount, "."); i >= 0 {
-				rowKind := "balance"
-				if strings.Contains(amount, "sItr") || strings.Contains(amount, "BatchSupply") {
-					rowKind = "supply"
-				}
-				colToMap[rowKind+"."+amount[i+1:]] = call.Call.Args[1]
-			}
+	// ---- dataflow summary of the invariant: which row columns are summed into which accumulator
+	// map, and which accumulator each supply column is compared with. Decided on a backward slice
+	// over the invariant and the closures / same-package helpers it calls (arguments bound at the
+	// call site), so the verdict does not depend on whether the summing and comparing code is a
+	// closure, a helper function or inline.
+	fl := newInvFlow(m, fn)
+	fl.scan(fn, nil, 0)
+	colsInto := map[ssa.Value]map[string]bool{}
+	for _, u := range fl.updates {
+		if colsInto[u.m] == nil {
+			colsInto[u.m] = map[string]bool{}
+		}
+		for s := range u.srcs {
+			colsInto[u.m][s] = true
 		}
 	}
-	tr, es, rt := colToMap["balance.TradableAmount"], colToMap["balance.EscrowedAmount"], colToMap["balance.RetiredAmount"]
-	sT, sR := colToMap["supply.TradableAmount"], colToMap["supply.RetiredAmount"]
-	ok := tr != nil && es != nil && rt != nil && sT != nil && sR != nil && tr == es && tr != rt && sT == tr && sR == rt
-	c.Check(ok, "C01.INV", "flow", p.Pos(fn.Pos()), "tradable and escrowed balances accumulate into one map, retired into another; supply tradable/retired are compared with exactly those maps")
-	// basket balances are added into the tradable map
-	basketOK := false
-	for _, b := range fn.Blocks {
-		for _, in := range b.Instrs {
-			if mu, isMU := in.(*ssa.MapUpdate); isMU && tr != nil && mu.Map == tr {
-				tm := t.T(mu.Value)
-				if strings.Contains(tm, "SafeAddBalance(") && strings.Contains(tm, "next(range(basketBalances))") {
-					basketOK = true
-				}
-				mapOps = append(mapOps, tm)
-			}
+	var tMap, rMap ssa.Value
+	for mp, cols := range colsInto {
+		if cols["col:BatchBalance.TradableAmount"] {
+			tMap = mp
+		}
+		if cols["col:BatchBalance.RetiredAmount"] {
+			rMap = mp
 		}
 	}
-	c.Check(basketOK, "C01.INV", "basket-into-tradable", p.Pos(fn.Pos()), "basket holdings (range over basketBalances) are added to the tradable accumulator with SafeAddBalance")
-	// exact operations only, and a mismatch sets broken
+	desc := func(mp ssa.Value) string {
+		var ks []string
+		for k := range colsInto[mp] {
+			if strings.HasPrefix(k, "col:") || k == "basket" {
+				ks = append(ks, k)
+			}
+		}
+		sort.Strings(ks)
+		return strings.Join(ks, ",")
+	}
+	okFlow := tMap != nil && rMap != nil && tMap != rMap &&
+		colsInto[tMap]["col:BatchBalance.EscrowedAmount"] && !colsInto[tMap]["col:BatchBalance.RetiredAmount"] &&
+		!colsInto[rMap]["col:BatchBalance.TradableAmount"] && !colsInto[rMap]["col:BatchBalance.EscrowedAmount"] && !colsInto[rMap]["basket"]
+	c.Check(okFlow, "C01.INV", "flow", p.Pos(fn.Pos()), fmt.Sprintf("tradable and escrowed balances accumulate into one map, retired balances into another (tradable accumulator receives {%s}, retired accumulator receives {%s})", desc(tMap), desc(rMap)))
+	c.Check(tMap != nil && colsInto[tMap]["basket"], "C01.INV", "basket-into-tradable", p.Pos(fn.Pos()), "basket holdings (the basketBalances argument) are added to the tradable accumulator")
+	// keys: every accumulation and comparison is keyed by the batch key of the row it reads
+	keyOK := len(fl.updates) > 0
+	for _, u := range fl.updates {
+		if !(u.keys["col:BatchBalance.BatchKey"] || u.keys["basket"]) || u.keys["col:BatchSupply.BatchKey"] {
+			keyOK = false
+		}
+	}
+	// comparisons
+	pairs := map[string]bool{}
+	cmpZero := len(fl.cmps) > 0
+	for _, cp := range fl.cmps {
+		var maps, cols []string
+		for s := range cp.srcs {
+			switch {
+			case strings.HasPrefix(s, "map:"):
+				maps = append(maps, s)
+			case strings.HasPrefix(s, "col:BatchSupply."):
+				cols = append(cols, s)
+			}
+		}
+		sort.Strings(maps)
+		sort.Strings(cols)
+		pairs[strings.Join(maps, "+")+"~"+strings.Join(cols, "+")] = true
+		if !cp.vsZero {
+			cmpZero = false
+		}
+		if !cp.keys["col:BatchSupply.BatchKey"] {
+			keyOK = false
+		}
+	}
+	c.Check(keyOK, "C01.INV", "keys", p.Pos(fn.Pos()), "every accumulation is keyed by the batch key of the balance row (or basket entry) it reads and every comparison looks the accumulator up under the supply row's batch key")
+	wantPairs := map[string]bool{}
+	if tMap != nil && rMap != nil {
+		wantPairs["map:"+fl.mapID(tMap)+"~col:BatchSupply.TradableAmount"] = true
+		wantPairs["map:"+fl.mapID(rMap)+"~col:BatchSupply.RetiredAmount"] = true
+	}
+	okPairs := len(wantPairs) == 2 && len(pairs) == 2
+	for k := range wantPairs {
+		if !pairs[k] {
+			okPairs = false
+		}
+	}
+	var ps []string
+	for k := range pairs {
+		ps = append(ps, k)
+	}
+	sort.Strings(ps)
+	c.Check(okPairs, "C01.INV", "compare-pairs", p.Pos(fn.Pos()), "supply tradable is compared with the tradable accumulator and supply retired with the retired accumulator, and nothing else is compared: "+strings.Join(ps, " | "))
+	// exact operations only
 	exact := true
 	var ops []string
-	for _, f := range append([]*ssa.Function{fn}, fn.AnonFuncs...) {
+	for f := range fl.fns {
 		for _, ci := range callsIn(f) {
 			sc := ci.Common().StaticCallee()
 			if sc == nil || !strings.HasSuffix(fnPkgPath(sc), mathPkgSuffix) {
@@ -436,20 +486,354 @@ func ruleBatchSupplyInvariant(c *Ctx, m *Model) {
 			}
 		}
 	}
+	sort.Strings(ops)
 	c.Check(exact, "C01.INV", "exact-ops", p.Pos(fn.Pos()), "invariant uses only parsing, SafeAddBalance and Cmp: "+strings.Join(uniqStrings(ops), ","))
-	cmpOK := false
-	for _, f := range fn.AnonFuncs {
-		for _, b := range f.Blocks {
-			for _, in := range b.Instrs {
-				if bo, isB := in.(*ssa.BinOp); isB && isCallTo(bo.X, "Dec.Cmp") {
-					if v, isC := constInt(bo.Y); isC && v == 0 {
-						cmpOK = true
+	c.Check(cmpZero, "C01.INV", "compare", p.Pos(fn.Pos()), fmt.Sprintf("supply and accumulated balance are compared with Cmp against EqualTo (%d comparisons)", len(fl.cmps)))
+}
+
+// ruleGenesisSupplyCompare: genesis validation is the induction base of the conservation argument
+// (A4). What is decided here is one structural necessary condition of that base: every decimal
+// comparison performed by ValidateGenesis and the helpers of its package is an equality test
+// (Cmp result compared with EqualTo = 0), so a declared supply above or below the summed balances
+// cannot be waved through by a one-sided comparison.
+func ruleGenesisSupplyCompare(c *Ctx, m *Model) {
+	p := m.P
+	fn := findFn(m, "x/ecocredit/v3/genesis", "ValidateGenesis")
+	if fn == nil {
+		c.Undecide("C01.GEN", "ValidateGenesis", "-", "genesis validation entry not found")
+		return
+	}
+	g := NewGraph(p)
+	n := 0
+	for f := range g.Closure([]*ssa.Function{fn}) {
+		if !g.isSubjectFn(f) || fnPkgPath(f) != fnPkgPath(fn) {
+			continue
+		}
+		for _, ci := range callsIn(f) {
+			call, ok := ci.(*ssa.Call)
+			if !ok || !isCallTo(call, "Dec.Cmp") || len(call.Call.Args) != 2 {
+				continue
+			}
+			// only comparisons between per-batch totals (operands read out of map[uint64]Dec accumulators)
+			if !fromDecMap(call.Call.Args[0], 0) || !fromDecMap(call.Call.Args[1], 0) {
+				continue
+			}
+			n++
+			vsZero, other := false, false
+			for _, r := range *call.Referrers() {
+				bo, isB := r.(*ssa.BinOp)
+				if !isB {
+					other = true
+					continue
+				}
+				v, isC := constInt(bo.Y)
+				if !isC {
+					v, isC = constInt(bo.X)
+				}
+				if isC && v == 0 && (bo.Op == token.EQL || bo.Op == token.NEQ) {
+					vsZero = true
+				} else {
+					other = true
+				}
+			}
+			c.Check(vsZero && !other, "C01.GEN", funcKey(f)+fmt.Sprintf("#Dec.Cmp@%d", n), p.Pos(call.Pos()), "genesis supply comparison is an equality test (Cmp result compared with EqualTo only)")
+		}
+	}
+	c.Min("decimal comparisons in genesis validation", 1, n)
+}
+
+// fromDecMap: the value is an element of a map (lookup or range value), possibly through a local slot.
+func fromDecMap(v ssa.Value, depth int) bool {
+	if depth > 5 {
+		return false
+	}
+	switch x := v.(type) {
+	case *ssa.Lookup:
+		_, isMap := x.X.Type().Underlying().(*types.Map)
+		return isMap
+	case *ssa.Extract:
+		if _, ok := x.Tuple.(*ssa.Next); ok {
+			return true
+		}
+		return fromDecMap(x.Tuple, depth+1)
+	case *ssa.UnOp:
+		if a, ok := x.X.(*ssa.Alloc); ok && x.Op == token.MUL {
+			for _, r := range *a.Referrers() {
+				if st, ok := r.(*ssa.Store); ok && st.Addr == a && fromDecMap(st.Val, depth+1) {
+					return true
+				}
+			}
+		}
+	case *ssa.Phi:
+		for _, e := range x.Edges {
+			if fromDecMap(e, depth+1) {
+				return true
+			}
+		}
+	}
+	return false
+}
+
+// ---- invariant dataflow summary ---------------------------------------------------------
+
+type invUpdate struct {
+	m    ssa.Value // accumulator (MakeMap of the invariant function)
+	srcs map[string]bool
+	keys map[string]bool
+}
+
+type invCmp struct {
+	srcs   map[string]bool
+	keys   map[string]bool
+	vsZero bool
+}
+
+type invFlow struct {
+	m       *Model
+	root    *ssa.Function
+	fns     map[*ssa.Function]bool
+	updates []invUpdate
+	cmps    []invCmp
+	maps    []ssa.Value
+	clos    map[*ssa.Function]*ssa.MakeClosure
+}
+
+func newInvFlow(m *Model, root *ssa.Function) *invFlow {
+	return &invFlow{m: m, root: root, fns: map[*ssa.Function]bool{}, clos: map[*ssa.Function]*ssa.MakeClosure{}}
+}
+
+func (f *invFlow) mapID(v ssa.Value) string {
+	for i, m := range f.maps {
+		if m == v {
+			return fmt.Sprint(i + 1)
+		}
+	}
+	f.maps = append(f.maps, v)
+	return fmt.Sprint(len(f.maps))
+}
+
+type invBind struct {
+	params map[*ssa.Parameter]ssa.Value
+	up     *invBind
+}
+
+// resolve follows parameters to call-site arguments, loads of locals to their single store and
+// captured variables to the captured slot.
+func (f *invFlow) resolve(v ssa.Value, b *invBind) (ssa.Value, *invBind) {
+	for i := 0; i < 8; i++ {
+		switch x := v.(type) {
+		case *ssa.Parameter:
+			if b != nil {
+				if a, ok := b.params[x]; ok {
+					v, b = a, b.up
+					continue
+				}
+			}
+			return v, b
+		case *ssa.UnOp:
+			if x.Op != token.MUL {
+				return v, b
+			}
+			switch a := x.X.(type) {
+			case *ssa.Alloc:
+				if sv := uniqueStore(a); sv != nil {
+					v = sv
+					continue
+				}
+			case *ssa.FreeVar:
+				if mc := f.clos[a.Parent()]; mc != nil {
+					for j, fv := range a.Parent().FreeVars {
+						if fv == a && j < len(mc.Bindings) {
+							if al, ok := mc.Bindings[j].(*ssa.Alloc); ok {
+								if sv := uniqueStore(al); sv != nil {
+									v, b = sv, nil
+									goto next
+								}
+							}
+						}
 					}
+				}
+			}
+			return v, b
+		case *ssa.ChangeType:
+			v = x.X
+			continue
+		case *ssa.MakeInterface:
+			v = x.X
+			continue
+		}
+		return v, b
+	next:
+	}
+	return v, b
+}
+
+// srcs: the row columns / basket argument / accumulator lookups a value is computed from.
+func (f *invFlow) srcs(v ssa.Value, b *invBind, depth int, out map[string]bool) {
+	if depth > 12 || v == nil {
+		return
+	}
+	v, b = f.resolve(v, b)
+	switch x := v.(type) {
+	case *ssa.UnOp:
+		if x.Op == token.MUL {
+			if fa, ok := x.X.(*ssa.FieldAddr); ok {
+				if t := f.m.TableOfRow(fa.X.Type()); t != nil {
+					out["col:"+t.Name+"."+fieldName(fa.X.Type(), fa.Field)] = true
+					return
+				}
+				f.srcs(fa.X, b, depth+1, out)
+				return
+			}
+			if a, ok := x.X.(*ssa.Alloc); ok {
+				for _, r := range *a.Referrers() {
+					if st, ok := r.(*ssa.Store); ok && st.Addr == a {
+						f.srcs(st.Val, b, depth+1, out)
+					}
+				}
+				return
+			}
+		}
+		f.srcs(x.X, b, depth+1, out)
+	case *ssa.Call:
+		for _, a := range x.Call.Args {
+			f.srcs(a, b, depth+1, out)
+		}
+	case *ssa.Extract:
+		if nx, ok := x.Tuple.(*ssa.Next); ok {
+			if rg, ok := nx.Iter.(*ssa.Range); ok {
+				rv, _ := f.resolve(rg.X, b)
+				if prm, ok := rv.(*ssa.Parameter); ok && prm.Parent() == f.root {
+					if _, isMap := prm.Type().Underlying().(*types.Map); isMap {
+						out["basket"] = true
+						return
+					}
+				}
+			}
+			return
+		}
+		f.srcs(x.Tuple, b, depth+1, out)
+	case *ssa.Lookup:
+		mv, _ := f.resolve(x.X, b)
+		if _, ok := mv.(*ssa.MakeMap); ok {
+			out["map:"+f.mapID(mv)] = true
+		}
+	case *ssa.Phi:
+		for _, e := range x.Edges {
+			f.srcs(e, b, depth+1, out)
+		}
+	case *ssa.Field:
+		f.srcs(x.X, b, depth+1, out)
+	case *ssa.Convert:
+		f.srcs(x.X, b, depth+1, out)
+	}
+}
+
+// scan walks fn (arguments bound by b) and the closures / same-package helpers it calls.
+func (f *invFlow) scan(fn *ssa.Function, b *invBind, depth int) {
+	if depth > 3 || len(fn.Blocks) == 0 {
+		return
+	}
+	f.fns[fn] = true
+	for _, blk := range fn.Blocks {
+		for _, in := range blk.Instrs {
+			switch x := in.(type) {
+			case *ssa.MakeClosure:
+				if cf, ok := x.Fn.(*ssa.Function); ok {
+					f.clos[cf] = x
+				}
+			case *ssa.MapUpdate:
+				mv, _ := f.resolve(x.Map, b)
+				if _, ok := mv.(*ssa.MakeMap); !ok {
+					continue
+				}
+				f.mapID(mv)
+				u := invUpdate{m: mv, srcs: map[string]bool{}, keys: map[string]bool{}}
+				f.srcs(x.Value, b, 0, u.srcs)
+				f.srcs(x.Key, b, 0, u.keys)
+				f.updates = append(f.updates, u)
+			case *ssa.Call:
+				if isCallTo(x, "Dec.Cmp") {
+					cp := invCmp{srcs: map[string]bool{}, keys: map[string]bool{}}
+					for _, a := range x.Call.Args {
+						f.srcs(a, b, 0, cp.srcs)
+					}
+					// the lookup key of the accumulator operand
+					for _, a := range x.Call.Args {
+						f.lookupKeys(a, b, 0, cp.keys)
+					}
+					for _, r := range *x.Referrers() {
+						if bo, ok := r.(*ssa.BinOp); ok && (bo.Op == token.EQL || bo.Op == token.NEQ) {
+							if v, isC := constInt(bo.Y); isC && v == 0 {
+								cp.vsZero = true
+							}
+							if v, isC := constInt(bo.X); isC && v == 0 {
+								cp.vsZero = true
+							}
+						}
+					}
+					f.cmps = append(f.cmps, cp)
+					continue
+				}
+				var callee *ssa.Function
+				switch cv := x.Call.Value.(type) {
+				case *ssa.MakeClosure:
+					callee, _ = cv.Fn.(*ssa.Function)
+					if callee != nil {
+						f.clos[callee] = cv
+					}
+				case *ssa.Function:
+					callee = cv
+				default:
+					// a closure stored in a local variable
+					if rv, _ := f.resolve(x.Call.Value, b); rv != nil {
+						if mc, ok := rv.(*ssa.MakeClosure); ok {
+							callee, _ = mc.Fn.(*ssa.Function)
+							if callee != nil {
+								f.clos[callee] = mc
+							}
+						}
+					}
+				}
+				if callee == nil || callee == fn || fnPkgPath(callee) != fnPkgPath(f.root) || len(callee.Blocks) == 0 {
+					continue
+				}
+				nb := &invBind{params: map[*ssa.Parameter]ssa.Value{}, up: b}
+				for i, prm := range callee.Params {
+					if i < len(x.Call.Args) {
+						nb.params[prm] = x.Call.Args[i]
+					}
+				}
+				f.scan(callee, nb, depth+1)
+			}
+		}
+	}
+}
+
+// lookupKeys: the key sources of accumulator lookups a value derives from.
+func (f *invFlow) lookupKeys(v ssa.Value, b *invBind, depth int, out map[string]bool) {
+	if depth > 8 || v == nil {
+		return
+	}
+	v, b = f.resolve(v, b)
+	switch x := v.(type) {
+	case *ssa.Lookup:
+		f.srcs(x.Index, b, 0, out)
+	case *ssa.Extract:
+		f.lookupKeys(x.Tuple, b, depth+1, out)
+	case *ssa.Phi:
+		for _, e := range x.Edges {
+			f.lookupKeys(e, b, depth+1, out)
+		}
+	case *ssa.UnOp:
+		if a, ok := x.X.(*ssa.Alloc); ok && x.Op == token.MUL {
+			for _, r := range *a.Referrers() {
+				if st, ok := r.(*ssa.Store); ok && st.Addr == a {
+					f.lookupKeys(st.Val, b, depth+1, out)
 				}
 			}
 		}
 	}
-	c.Check(cmpOK, "C01.INV", "compare", p.Pos(fn.Pos()), "supply and accumulated balance are compared with Cmp against EqualTo")
 }
 
 // ---- C02 ---------------------------------------------------------------------------
